@@ -83,7 +83,8 @@ Inductive rop :=
 | RMin (sx sy : tshape) (dim : nat)
 | RLogSumExp (sx sy : tshape) (dim : nat)
 | RSCE (sx sy : tshape) (dim : nat)
-| RSparseSCE (sx sp : tshape) (ids : list nat) (dim : nat).
+| RSparseSCE (sx sp : tshape) (ids : list nat) (dim : nat)
+| RMaxPool (sx sy : tshape) (w0 w1 p0 p1 s0 s1 : nat).
 
 Notation opdescR := (@opdesc R).
 Definition describeR (o : rop) : opdescR :=
@@ -101,6 +102,7 @@ Definition describeR (o : rop) : opdescR :=
   | RLogSumExp sx sy dim => lse_desc sx sy dim
   | RSCE sx sy dim => sce_desc sx sy dim
   | RSparseSCE sx sp ids dim => ssce_desc sx sp ids dim
+  | RMaxPool sx sy w0 w1 p0 p1 s0 s1 => pool_desc sx sy w0 w1 p0 p1 s0 s1
   end.
 
 Definition real_family : OpFamily rop tshape (@OpFamily.vec R) :=
@@ -111,7 +113,7 @@ Definition real_jvp : JvpFamily (R := R) rop := desc_jvp describeR.
 
 Theorem describeR_LA (o : rop) : desc_LA 0 Rplus Rmult (describeR o).
 Proof.
-  destruct o as [c|u s|c s k|s|s|s k|b sa sb|sx sy dim|sx sy dim|sx sy dim|sx sy dim|sx sp ids dim]; cbn [describeR].
+  destruct o as [c|u s|c s k|s|s|s k|b sa sb|sx sy dim|sx sy dim|sx sy dim|sx sy dim|sx sp ids dim|sx sy w0 w1 p0 p1 s0 s1]; cbn [describeR].
   - apply (describe_LA 0 1 Rplus Rmult Rminus Ropp RthR).
   - apply (uny_LA 0 1 Rplus Rmult Rminus Ropp RthR). intros x y g.
     destruct (bw_linear_unary x y g) as (H1 & H2 & H3 & H4 & H5 & H6 & H7 & H8 & H9 & H10). destruct u; assumption.
@@ -128,6 +130,7 @@ Proof.
   - apply lse_LA.
   - apply sce_LA.
   - apply ssce_LA.
+  - apply pool_LA.
 Qed.
 
 Theorem real_LocalAdjoint (o : rop) : LocalAdjoint 0 Rplus Rmult real_family real_jvp tsize o.
